@@ -55,7 +55,14 @@ impl<'de> serde::de::VariantAccess<'de> for TableEnumDeserializer {
     where
         T: serde::de::DeserializeSeed<'de>,
     {
+        let span = self.value.span();
         seed.deserialize(super::ValueDeserializer::new(self.value))
+            .map_err(|mut e: Self::Error| {
+                if e.span().is_none() {
+                    e.set_span(span);
+                }
+                e
+            })
     }
 
     fn tuple_variant<V>(self, len: usize, visitor: V) -> Result<V::Value, Self::Error>
